@@ -123,7 +123,7 @@ hist_property!(
 );
 
 hist_property!(
-    c05, "C05", hist::PURGE_PROFILE, 6000, 30_000, 150,
+    c05, "C05", hist::PURGE_PROFILE, 8000, 30_000, 150,
     |f, _| f.multi_storage_death_then_reuse > 0,
     "histories over 3..8 storages of mixed kinds, each made known through a generated path (register, register_with_storage, setup of Read/WriteStorage, Dispatcher::setup, World::exec); after every step every storage's mask, count and every (handle, storage) lookup is compared with the model; non-trivial = an entity holding components in >= 2 storages died and its index was reused later",
     true
